@@ -763,6 +763,20 @@ RAW_SCENARIOS = [
                   ('assist', 'from . import a\na.X.', '@pkg/sub/e.py'),
                   ('assist', 'import @pkg.sub.a\n@pkg.sub.a.X.', '@main.py')],
      'edits': [('@pkg/__init__.py', ''), ('@dir/__init__.py', ''), ('@pkg/sub/a.py', None)]},
+    # the FIRST request fails: a relative import from a buffer in a directory that is not a package yet
+    # ('Not a package', the empty package path is memoised), nobody imports the package by its absolute
+    # name; then the directory's own __init__.py is created - also one level down, a sub-directory of an
+    # existing package. The fixed sequences run first in every tier.
+    {'name': 'directory-becomes-a-package-after-a-failed-relative-import',
+     'files': {'@dir/y.py': 'class Z:\n    zattr = 1\n', '@pkg2/__init__.py': '',
+               '@pkg2/inner/y.py': 'class W:\n    wattr = 1\n'},
+     'requests': [('assist', 'from .y import Z\nZ.', '@dir/e.py'),
+                  ('assist', 'from . import y\ny.Z.', '@dir/e.py'),
+                  ('assist', 'from .y import W\nW.', '@pkg2/inner/e.py'),
+                  ('lint', 'from .y import *\nprint(Z)\n', '@dir/e.py'),
+                  ('location', 'from ..inner.y import W\nW', '@pkg2/inner/e.py')],
+     'edits': [('@dir/__init__.py', ''), ('@pkg2/inner/__init__.py', ''), ('@dir/y.py', None)],
+     'extra_seqs': [[0, -1, 0], [1, -1, 1], [3, -1, 3], [2, -2, 2], [4, -2, 4], [0, 2, 3, -1, -2, 0, 2, 3, 4]]},
 ]
 
 
@@ -1145,7 +1159,8 @@ def run(ctx):
                               '(request #%d of the history); the in-process new Project agrees with the long-lived one, '
                               'so state survives outside the Project' % (la2[j], pa[j], j),
                               {'kind': 'direct-new-process', 'history': h, 'long': la2, 'new_process': pa})
-                break
+                if found_by_process >= 3:
+                    break
     if bad and not ndirect and not found_by_process:
         h, la, fa = kept[bad[0]]
         ctx.violation('correspondence Model.Cache (answers Repaired / fresh_answers) vs supp.project no longer checks '
